@@ -44,7 +44,7 @@ def run(ck: Check) -> None:
     rng = ck.rng
     from .. import impl
 
-    n = 300 if ck.thorough else 70
+    n = ck.n(300, 70)
     docs, keys = [], []
     for i in range(n):
         docs.append(rand_doc(rng))
